@@ -69,6 +69,7 @@ Definition core0 : list op :=
   [ Tx "bob" "PM" (WPm (PmSwap "uusd" None (Some 500000000000000000) None "o.a")) [("uom", 5000001)];
     Tx "carol" "PM" (WPm (PmProvide None (Some 500000000000000000) None "o.a" None None)) [("uusd", 80001)];
     BankSendOp "bob" "PM" [("uusdc", 77)];
+    Tx "bob" "PM" (WPm (PmProvide None None None "o.a" (Some 86400) None)) [("uom", 1000000); ("uusd", 2000000)];   (* locked in the farm manager *)
     Tx "bob" "PM" (WPm (PmRoute [{| so_in := "uusd"; so_out := "uom"; so_pool := "o.a" |}] None None (Some 500000000000000000))) [("uusd", 3000)];
     Tx "carol" "PM" (WPm (PmSwap "uom" None (Some 1) None "o.a")) [("uusd", 900000000)];     (* rejected: slippage *)
     Tx "alice" "PM" (WPm (PmWithdraw "o.a")) [(lp0, 1000000)] ].
@@ -78,7 +79,7 @@ Definition ledger_statement : Prop :=
     let w1 := run w0 setup0 in
     good_run w1 core0 /\ asset_denom "uusd" /\ asset_denom "uusdc" /\ asset_denom "uom" /\
     ledger w1 core0 "uusd" = 1 /\ ledger w1 core0 "uusdc" = 77 /\ ledger w1 core0 "uom" = 0 /\
-    map (fun o => snd (step w1 o)) [nth 4 core0 (SetFault 0)] <> [] .
+    map (fun o => snd (step w1 o)) [nth 5 core0 (SetFault 0)] <> [] .
 
 Lemma asset_denom_u s : asset_denom ("u" ++ s).
 Proof. intros id C. unfold lp_of_id in C. cbn in C. discriminate. Qed.
